@@ -620,7 +620,20 @@ def check_evalstring(ctx):
                     if 'single_token_' in t and pol:
                         return False
             return True
-        r = sp.find_path(None, lambda x: x is special[0], from_succ=sp.entry, is_blocker=lambda x: x is moved[0], edge_ok=pending)
+        # (the situation is given to the path search as facts, so that a condition stored in a named boolean or tested as a
+        # whole is decided by it as well)
+        keys = {}
+        for b_, blk_ in sp.blocks.items():
+            for i_ in range(len(blk_['succ'])):
+                for k_, p_, a_ in sp.edge_facts(b_, i_, all=True):
+                    sa_ = strip(a_)
+                    if isinstance(sa_, dict) and sa_.get('k') == 'call' and lastname(sa_.get('name') or '') == 'empty':
+                        if 'parsed_' in k_:
+                            keys[k_] = True
+                        elif 'single_token_' in k_:
+                            keys[k_] = False
+        r = sp.find_path(None, lambda x: x is special[0], from_succ=sp.entry, is_blocker=lambda x: x is moved[0], edge_ok=pending,
+                         init_facts=frozenset(keys.items()))
         ctx.check('C12.EV1', r is None, sp.name, 'AddSpecial:pending-text-lost', sp.where(special[0]),
                   'text collected before the first variable is moved into the list before the variable is appended',
                   witness=None if r is None else {'blocks': r[0]})
